@@ -129,6 +129,10 @@ func (c *VerifClient) BreakWrites() {
 // websocket close handshake.
 func (c *VerifClient) Sever() { c.ep.conn.UnderlyingConn().Close() }
 
+// Transport is an opaque identity of the client's transport, as passed to
+// VerifTrHook.
+func (c *VerifClient) Transport() interface{} { return c.ep.tr }
+
 // QueuedCalls is the number of calls accepted but not yet seen by serve.
 func (c *VerifClient) QueuedCalls() int { return len(c.ep.tr.calls) }
 
